@@ -333,3 +333,29 @@ Fixpoint list_remove_first (l : list dyn) (x : dyn) : option (list dyn) :=
   end.
 Definition py_list_remove (l : list dyn) (x : dyn) : exc (list dyn) :=
   match list_remove_first l x with Some l' => Ok l' | None => Raise ValueError end.
+
+(* ------------------------------------------------------------------ Python slices with any integer bounds *)
+Definition clamp_index (n i : Z) : Z :=            (* slice index i for a sequence of length n *)
+  let j := if i <? 0 then i + n else i in
+  if j <? 0 then 0 else if n <? j then n else j.
+Definition py_slice_to (s : list Z) (b : Z) : list Z := firstn (Z.to_nat (clamp_index (zlen s) b)) s.
+Definition py_slice_from (s : list Z) (a : Z) : list Z := skipn (Z.to_nat (clamp_index (zlen s) a)) s.
+(* bytes.partition(sep) for a one-byte separator: (before, sep or empty, after) *)
+Fixpoint partition_char (sep : Z) (s : list Z) (acc : list Z) : list Z * bool * list Z :=
+  match s with
+  | [] => (rev acc, false, [])
+  | c :: t => if c =? sep then (rev acc, true, t) else partition_char sep t (c :: acc)
+  end.
+(* b" ".join(parts) *)
+Fixpoint join_with (sep : list Z) (parts : list (list Z)) : list Z :=
+  match parts with [] => [] | [p] => p | p :: t => p ++ sep ++ join_with sep t end.
+(* bytes.isdigit(): non-empty and all ASCII digits *)
+Definition bytes_isdigit (s : list Z) : bool := match s with [] => false | _ => forallb is_digit s end.
+(* bytes.splitlines(): split on \n, \r, \r\n (bytes recognise only these) without keeping ends *)
+Fixpoint splitlines_aux (s cur : list Z) : list (list Z) :=
+  match s with
+  | [] => match cur with [] => [] | _ => [rev cur] end
+  | 13 :: 10 :: t => rev cur :: splitlines_aux t []
+  | c :: t => if (c =? 10) || (c =? 13) then rev cur :: splitlines_aux t [] else splitlines_aux t (c :: cur)
+  end.
+Definition bytes_splitlines (s : list Z) : list (list Z) := splitlines_aux s [].
